@@ -231,6 +231,7 @@ def run(tier, seed):
     if not chk.build():
         return chk.finish({"evaluations": 0, "distinct_nontrivial": 0, "rule": "", "samples": []})
     quick = tier == "quick"
+    chk.sort_key = lambda k: (0 if ":none:" in k or not k.startswith("fmt:") else 1, k)     # unattributed violations are listed first
     cov = {"evaluations": 0, "distinct_nontrivial": 0, "samples": [], "streams": {}, "passenger_observations": [], "passenger_src": []}
     c01.fold(chk, cov, "format-relations", fan_out(_shard, tier=tier, seed=seed, budget_s=40 if quick else 900))
     cov.pop("passenger_observations", None); cov.pop("passenger_src", None)
